@@ -190,6 +190,17 @@ pub fn generate(seed: u64, tier: &str, sink: &mut Sink) {
                 Reads::Sizes(vec![1 << 16; 40])
             } else if k > 6000 {
                 Reads::Drain(8192)
+            } else if rng.chance(1, 3) {
+                // a caller that fills fixed-size records issues a read of 0 bytes now and then (`read(&mut rec[filled..])`
+                // with the record full): that is not the end of the body (seed C06-seed10)
+                let mut ns = vec![];
+                for j in 0..k {
+                    ns.push(s);
+                    if j % 3 == 1 {
+                        ns.push(0);
+                    }
+                }
+                Reads::Sizes(ns)
             } else {
                 Reads::Sizes(vec![s; k])
             }
